@@ -20,8 +20,10 @@ from ..core import cz, clist, copt, czlist, cstr
 ID = "C20"
 THEOREMS = [
     "C20_chunks_concat", "C20_chunks_sizes", "C20_batches_are_chunks", "C20_batch_sizes",
-    "C20_epoch_is_permutation", "C20_fields_aligned", "C20_fields_aligned_rowwise",
-    "C20_truncation", "C20_replay_epoch_is_permutation", "C20_merge_padding", "C20_merge_padding_rowwise",
+    "C20_epoch_is_permutation", "C20_every_epoch_is_permutation",
+    "C20_fields_aligned", "C20_fields_aligned_given_perm", "C20_fields_aligned_rowwise",
+    "C20_truncation", "C20_no_truncation",
+    "C20_replay_epoch_is_permutation", "C20_merge_padding", "C20_padding_is_zero", "C20_merge_padding_rowwise",
     "C20_seed_determines_stream", "C20_fastforward_eq_consume", "C20_fastforward_skips_stream",
     "C20_pickle_restarts", "C20_pickle_restarts_stream",
 ]
@@ -369,9 +371,7 @@ def oracle_file(spec, tmpdir):
     ds4 = pickle.loads(pickle.dumps(ds))
     if not same(ep(ds4), eps[0]):
         return ("a pickled and restored dataset restarts the same stream", {"consumed_before_pickle": 3})
-    if n >= 6 and same(eps[0], eps[1]) and same(eps[1], eps[2]):
-        return None  # reshuffling is not part of C20's statement
-    return None
+    return None  # (that consecutive epochs differ is not part of C20's statement)
 
 
 # --------------------------------------------------------------------------
